@@ -59,12 +59,20 @@ def mk_linkage_conformation(reference):
         conf = H.conformation('AVR', p=p, mol=mol)
         asp = mk_group('COOGroup', 'ASP', 10, 'CG', q=-1, p=p)
         asp.pka_value, asp.model_pka = ctx.real('asp_pka', 0, 10), 3.8
-        kind = ctx.choice('second_group', ['bridged-CYS', 'unlisted-CYS', 'free-CYS', 'backbone', 'twin-with-the-same-label'])
+        kind = ctx.choice('second_group', ['bridged-CYS', 'unlisted-CYS', 'free-CYS', 'backbone', 'twin-with-the-same-label', 'discarded-coupled-group'])
         if kind == 'twin-with-the-same-label':
             # a second titratable group whose label coincides with the first one's (two copies of a ligand in one chain,
             # residues differing in insertion code only): both count, in the energy and in the charges
             g2 = mk_group('COOGroup', 'ASP', 10, 'CG', q=-1, p=p)
             g2.pka_value, g2.model_pka = ctx.real('twin_pka', 0, 10), 3.8
+        elif kind == 'discarded-coupled-group':
+            # a titratable group covalently coupled to the first one and discarded from the reported rows (N-terminal Asp,
+            # conjugated ligand nitrogens): it still titrates -- it counts in the charges, so it counts in the energy
+            g2 = mk_group('NtermGroup', 'ASP', 10, 'N', q=1, p=p)
+            g2.pka_value, g2.model_pka = ctx.real('nterm_pka', 4, 6), 8.0
+            g2.coupled_titrating_group = asp
+            g2.covalently_coupled_groups = [asp]
+            asp.covalently_coupled_groups = [g2]
         elif kind == 'backbone':
             g2 = mk_group('BBNGroup', 'ALA', 20, 'N', q=0, p=p)
             g2.titratable = False
@@ -76,7 +84,8 @@ def mk_linkage_conformation(reference):
             g2.atom.cysteine_bridge = (kind == 'bridged-CYS')
             g2.exclude_cys_from_results = (kind == 'unlisted-CYS')
         conf.groups.extend([asp, g2])
-        ph = ctx.real('ph', 0, 14)
+        # (discarded group: pH kept where its folded and unfolded charges differ visibly, so that a counterexample survives the native tolerance)
+        ph = ctx.real('ph', 6, 9) if kind == 'discarded-coupled-group' else ctx.real('ph', 0, 14)
         if ctx.native:
             h = 1e-6
             d = (conf.calculate_folding_energy(ph=ph + h, reference=reference) - conf.calculate_folding_energy(ph=ph - h, reference=reference)) / (2 * h)
@@ -329,7 +338,7 @@ def obligations(tier):
         obs.append(Obligation('O1-proton-linkage-conformation[%s]' % ref, mk_linkage_conformation(ref),
                               code=['propka/conformation_container.py:ConformationContainer.calculate_folding_energy', 'propka/conformation_container.py:ConformationContainer.calculate_charge',
                                     G + 'calculate_folding_energy', G + 'calculate_charge'],
-                              bounds='a conformation with ASP (symbolic pKa) and a second group that is a bridged / unlisted / free cysteine or a backbone group; pH in [0,14]',
+                              bounds='a conformation with ASP (symbolic pKa) and a second group that is a bridged / unlisted / free cysteine, a backbone group, a twin with the same label, or a titrating group discarded by covalent coupling (that one: pKa in [4,6], pH in [6,9]); pH in [0,14]',
                               shims=['pH as a dual number'], claim_doc='d/dpH of the summed folding energy == 1.36 x (summed folded - unfolded charge)', query_timeout_ms=60000, wall_s=200))
     obs.append(Obligation('O1-sum-over-groups', o_sum, code=['propka/conformation_container.py:ConformationContainer.calculate_folding_energy'],
                           bounds='3 groups with free symbolic energies', claim_doc='sum over groups'))
